@@ -220,10 +220,14 @@ class Interp:
                 for name, f in c.ensures_raise(cx, a, e):
                     cx.assume(f)
                 raise PyRaise(e)
-        c.effects(cx, a)
-        res = c.fresh_result(cx, a)
-        for name, f in c.ensures(cx, a, res):
-            cx.assume(f)
+        cx.ghost["call_site"] = cx.ghost.get("call_site", 0) + 1
+        try:
+            c.effects(cx, a)
+            res = c.fresh_result(cx, a)
+            for name, f in c.ensures(cx, a, res):
+                cx.assume(f)
+        finally:
+            cx.ghost["call_site"] -= 1
         return res
 
     # =================================================================================== statements
